@@ -497,22 +497,27 @@ func (s *Session) Close() {
 	if s.pool != nil {
 		s.pool.Close()
 	}
+	verifPoint("sess.close.1")
 
 	if s.control != nil {
 		s.control.close()
 	}
+	verifPoint("sess.close.2")
 
 	if s.nodeEvents != nil {
 		s.nodeEvents.stop()
 	}
+	verifPoint("sess.close.3")
 
 	if s.schemaEvents != nil {
 		s.schemaEvents.stop()
 	}
+	verifPoint("sess.close.4")
 
 	if s.ringRefresher != nil {
 		s.ringRefresher.stop()
 	}
+	verifPoint("sess.close.5")
 
 	if s.cancel != nil {
 		s.cancel()
